@@ -89,12 +89,12 @@ type tmpl struct {
 	kind    string
 	desc    string
 	ops     []nfsv4.NfsArgop4
-	atExec  func(c *call)                           // model effects and predictions when the server starts executing
-	predict func(c *call)                           // prediction that must be made right before the directory operation
-	onDone  func(c *call, res []nfsv4.NfsResop4)    // verify the reply, update the model
-	parkOK  []string                                // park kinds that make sense for this template
-	stateOp bool                                    // successful execution changes open or lock state
-	expect  []sts                                   // acceptable statuses per operation (filled by atExec/predict)
+	atExec  func(c *call)                        // model effects and predictions when the server starts executing
+	predict func(c *call)                        // prediction that must be made right before the directory operation
+	onDone  func(c *call, res []nfsv4.NfsResop4) // verify the reply, update the model
+	parkOK  []string                             // park kinds that make sense for this template
+	stateOp bool                                 // successful execution changes open or lock state
+	expect  []sts                                // acceptable statuses per operation (filled by atExec/predict)
 	data    map[string]any
 }
 
@@ -144,7 +144,7 @@ type world struct {
 	excl   map[string]int
 
 	grantedOwners map[string]bool
-	notes  []string
+	notes         []string
 }
 
 func (w *world) violateLocked(format string, args ...any) {
